@@ -123,7 +123,9 @@ Proof.
   destruct (as_pairs (d_rep_bursts D)) as [rt|]; [|exact Hfull].
   pose proof (parseH_no_pyerr tol (d_rep_lead_in D) (d_rep_lead_out D) rt frame) as Hr.
   destruct (parseH tol (d_rep_lead_in D) (d_rep_lead_out D) rt frame); try reflexivity; try exact Hfull; [|discriminate].
-  destruct (is_nil rt); [reflexivity|]. destruct (zlist_eqb _ _); reflexivity.
+  destruct (is_nil rt); [reflexivity|]. destruct (zlist_eqb _ _); [reflexivity|].
+  clear -Hfull. destruct (base_decode D t tol frame); try exact Hfull.
+  destruct (zlist_eqb _ _); exact Hfull.
 Qed.
 
 (* ... and therefore every frame of every sequence fed to one instance *)
